@@ -73,8 +73,16 @@ def hist(rng, ident, big=False):
 def fatal(rng, ident):
     ch = mp.Chooser()
     good = frames.frame(frames.content([2, ("s", scn.M), scn.arg(100)], ch), ch)
-    kind = rng.below(12)
-    if kind >= 8:
+    kind = rng.below(15)
+    if kind >= 12:
+        # a compressed call for a REGISTERED method whose payload does not inflate (gzip: bad magic, truncated, bad checksum;
+        # msgpackzip: garbage) or inflates to bytes that are not one msgpack value: a decoding violation like any other
+        import gzip as _gz
+        z = _gz.compress(mp.enc(scn.arg(101), mp.Chooser()), 6, mtime=0)
+        payload, ct = rng.choice([(bytes([0x1f, 0x8c]) + z[2:], 1), (z[: len(z) - 5], 1), (z[:-8] + bytes([z[-8] ^ 0x33]) + z[-7:], 1),
+                                  (rng.bytes(9), 1), (rng.bytes(7), 2), (_gz.compress(b"\xc1\xc1", 6, mtime=0), 1)])
+        bad = frames.frame(frames.content([4, 79, ct, ("s", scn.M), ("b", payload)], ch), ch)
+    elif kind >= 8:
         # a request for a REGISTERED method whose trailing tags field does not decode as a string-keyed map
         badtags = rng.choice([5, ("s", b"tags"), [1, 2], ("m", [(7, 1)]), True])
         if kind in (8, 9):
